@@ -50,7 +50,7 @@ def gen(rng, i, tier):
             keys = rng.sample(LIMIT_KEYS, rng.randint(1, 3))
             c["limits"] = {k: ([-40.0, G.sig(rng.uniform(50, 150))] if k == "tp" else
                                [G.sig(rng.uniform(0, 0.01)), G.sig(G.lu(rng, 0.1, 100.0))]) for k in keys}
-    return {"spec": spec, "hseed": rng.randrange(1 << 40), "detour_rate": rng.choice([0.3, 0.6]), "first_scratch": i % 5 == 4}
+    return {"spec": spec, "hseed": rng.randrange(1 << 40), "detour_rate": rng.choice([0.3, 0.6]), "first_scratch": i % 5 == 4, "force_move": i % 3 == 1}
 
 
 def directed():
@@ -75,7 +75,7 @@ def other_kind(rng, kind, has_mux):
     return rng.choice([k for k in opts if k != kind])
 
 
-def plan_history(rng, T, rate, first_scratch=False):
+def plan_history(rng, T, rate, first_scratch=False, force_move=False):
     """Ops (all expected to be accepted) that end at T. Returns (ops, detours used)."""
     order = S.topo_orders(T, rng, rng.choice(["random", "dfs", "bfs", "sources_first", "reverse_sources"]))["comps"]
     tmpl = S.comp_map(T)
@@ -97,6 +97,7 @@ def plan_history(rng, T, rate, first_scratch=False):
         return "" if temp else c.get("rail", "")
 
     zero_free_before = None
+    late_move = None
     if first_scratch:
         # the system is CREATED with a scratch source (node index 0); the real first source joins through add_source.
         # The scratch source is deleted right before a component that will be the ONLY child of its parent is added:
@@ -145,6 +146,17 @@ def plan_history(rng, T, rate, first_scratch=False):
         has_mux = any(tmpl[x]["kind"] == "PMux" for x in cur)
         detour = rng.random() < rate
         how = rng.choice(["extra", "replace", "rename_late", "intermediate", "other_params", "move", "shadow"]) if detour else "direct"
+        if force_move and late_move is None and c["kind"] in S.LOADS:
+            # fixed share: one load hangs on a WRONG parent for the whole history and is moved (deleted and re-added
+            # under its real parent: same name, same recycled node index) as the very last edit, right after an
+            # analysis - nothing else changes between that edit and the judgement
+            wrong_ = [cur[x] for x in cur if tmpl[x]["kind"] not in S.LOADS and tmpl[x]["kind"] != "PMux" and cur[x] not in parents_now
+                      and not cur[x].startswith("~")]
+            if wrong_:
+                ops.append(add_op(c, entry(c), [rng.choice(wrong_)], ""))
+                cur[n] = n
+                late_move = c
+                continue
         if c["kind"] == "PMux":
             # (fixed shares of the muxes: the mux-specific detours must not depend on luck)
             how = rng.choice(["intermediate", "intermediate", "other_params", "other_params", how])
@@ -294,6 +306,15 @@ def plan_history(rng, T, rate, first_scratch=False):
         ops.append({"op": "del_comp", "name": sn, "del_childs": True})
     if first_scratch and zero_free_before is None:
         ops.append({"op": "del_comp", "name": "~z0", "del_childs": True})
+    if late_move is not None:
+        c = late_move
+        ops.append({"op": "analyse", "what": rng.choice(["solve", "solve", "params", "rail_rep"])})
+        ops.append({"op": "del_comp", "name": c["name"], "del_childs": True})
+        ops.append(add_op(c, entry(c), list(c["parents"]), c.get("rail", "")))
+        if c.get("phase") is not None:
+            ops.append({"op": "set_comp_phases", "name": c["name"], "conf": copy.deepcopy(c["phase"])})
+        used.append("move")
+        used.append("late_move")
     return ops, used
 
 
@@ -325,7 +346,7 @@ def run(ctx, case):
         for c in T["comps"]:
             if c.get("limits"):
                 c["limits"] = {k: v for k, v in c["limits"].items() if k in applicable(c["kind"])} or None
-    ops, used = plan_history(rng, T, case["detour_rate"], case.get("first_scratch", False))
+    ops, used = plan_history(rng, T, case["detour_rate"], case.get("first_scratch", False), case.get("force_move", False))
     reload_at = rng.randrange(1, max(2, len(ops))) if will_reload else -1
     audit_at = rng.randrange(0, max(1, len(ops) - 1)) if rng.random() < 0.5 else -1
     late_src = [k_ for k_, o_ in enumerate(ops[1:]) if isinstance(o_, dict) and o_["op"] == "add_source"]
